@@ -188,20 +188,30 @@ def check_case(ctx, case):
                         break
             # table model: which configurations survive
             if ctx.lean is not None and fmt == 'dobs':
+                from lean import f2b, b2f
                 for i, o in enumerate(obs):
                     for n in [x for x in o.names if x not in o.covobs]:
                         off = float(o.r_values[n] - o.value)
                         nums = [float(dd + off) for dd in o.deltas[n]]
-                        from lean import f2b
-                        rr = ctx.lean.call({'op': 'dobs', 'idl': [int(c) for c in o.idl[n]], 'nums': [f2b(v) for v in nums]})
+                        # the rows of the table: merged configurations of every observable that has this replica
+                        merged = sorted(set(int(c) for oo in obs if n in oo.idl and n not in oo.covobs for c in oo.idl[n]))
+                        rr = ctx.lean.call({'op': 'dobs', 'idl': [int(c) for c in o.idl[n]], 'nums': [f2b(v) for v in nums],
+                                            'merged': merged, 'value': f2b(float(o.value))})
                         if '_err' in rr:
                             probs.append(('disagree', 'lean-driver-error', rr['_err']))
                             break
                         exp_keep = [int(c) for c, v in zip(o.idl[n], nums) if v != 0]
                         if rr['kept'] != exp_keep:
                             probs.append(('disagree', 'table-model', 'model keeps %r' % (rr['kept'][:6],)))
-                        if i < len(got) and n in got[i].idl and list(got[i].idl[n]) != rr['kept']:
-                            probs.append(('disagree', 'model-vs-impl-kept-configs', '%s: impl %r model %r' % (n, list(got[i].idl[n])[:8], rr['kept'][:8])))
+                        if i < len(got) and n in got[i].idl:
+                            if list(got[i].idl[n]) != rr['kept']:
+                                probs.append(('disagree', 'model-vs-impl-kept-configs', '%s: impl %r model %r' % (n, list(got[i].idl[n])[:8], rr['kept'][:8])))
+                            else:
+                                gs = [float(x) + float(got[i].r_values[n]) for x in got[i].deltas[n]]
+                                ms = [b2f(x) for x in rr['samples']]
+                                sc = max([1.0] + [abs(x) for x in ms])
+                                if any(abs(a - b) > 1e-11 * sc for a, b in zip(gs, ms)):
+                                    probs.append(('disagree', 'model-vs-impl-samples', '%s: impl %r model %r' % (n, gs[:4], ms[:4])))
     finally:
         shutil.rmtree(d, ignore_errors=True)
     return probs
